@@ -307,7 +307,7 @@ PROPS = {
         "claim": "Sans-IO typestate layer: on each of the four stream roles, from an arbitrary first-frame state, the accept/reject verdict and the error code for every frame kind equal the RFC 9114 7.2 / WebTransport-draft rule table; invalid session ids -> H3_ID_ERROR, oversize -> H3_EXCESSIVE_LOAD, unknown uni stream type -> H3_STREAM_CREATION_ERROR; the 15 error codes and the reserved/registered setting ids equal their registry values.",
         "note": "Quick tier: well-formed single frames (bounded). Thorough tier: every byte string <= 14 bytes. Not decided: the driver's reaction (RemoteSettingsStream::run, handle_uni_h3_stream, missing/duplicate SETTINGS, closed critical streams) - async over quinn.",
         "kani": STREAM_KANI_QUICK[:5] + STREAM_KANI_BUFFERED + STREAM_KANI_THOROUGH + MISC_KANI[:1] + SETTING_ID_KANI[1:3],
-        "verus": [V("frame", pair=("proto", "p_frame_read_matches_reference_20")), V("settings", pair=("proto", "c_settingid_parse")), V("frame_async")],
+        "verus": [V("frame", pair=("proto", "p_frame_read_matches_reference_20")), V("settings", pair=("proto", "c_settingid_parse")), V("frame_async"), V("stream_header", pair=("proto", "p_uniremote_upgrade"))],
         "not_decided": ["driver-level rules: missing/repeated SETTINGS, duplicated/closed critical streams, what is put on the wire"],
     },
     "C13": {
